@@ -189,16 +189,16 @@ TABLE['C04']['modules'].append('contracts.depfile')
 TABLE['C19'] = {
     'modules': ['contracts.scripts'],
     'level': 'other',
-    'explanation': 'partial: (proof) add_user_argument registers exactly the names and their --x- aliases and rejects reserved/malformed names, for all name strings; (syntactic proof on the AST) the globals handed to exec() are a fresh two-key dict display; (bounded, real classes) both spellings parse to the same value for plain/enable/with arguments, and push_path keeps the path stack balanced on normal and exceptional exit. Relative path resolution in submodules (relpath/buildpath) and "exported values reach exactly the caller" are not covered.',
+    'explanation': 'partial: (proof) add_user_argument registers exactly the names and their --x- aliases and rejects reserved/malformed names, for all name strings; (syntactic proof on the AST) the globals handed to exec() are a fresh two-key dict display; (bounded, real classes) both spellings parse to the same value for plain/enable/with arguments, and push_path keeps the path stack balanced on normal and exceptional exit; (bounded, real configure_build on generated script trees: chains to depth 4, ../ references, a sibling included twice, a directory name with a blank; build and options contexts) every submodule() call runs the callee script of the kind of the caller, exports reach exactly the caller, no variable leaks, input paths are relative to the source directory of the script, output paths of copy_file/object_file/executable/static_library to the matching build directory (build_step: known finding), nested project arguments carry the configured values.',
     'assumptions': ['argparse dispatches option strings as documented', 'Python exec() with an explicit globals dict does not share names between calls'],
     'trusted_base': ['PyVC (pyvc/*.py)', 'z3 5.1.0'],
-    'not_covered': ['builtins/path.py relpath/relname/buildpath', 'core.submodule/export', 'values seen by later regenerations (see C09)'],
+    'not_covered': ['trees deeper than 4 / other shapes than the listed ones', 'output builtins other than the five listed', 'values seen by later regenerations (see C09)'],
     'level_text': 'Partial claim, see explanation.',
-    'level_note': 'Two small proofs plus bounded runs; most of the property (submodule-relative paths, export flow) is not covered.',
+    'level_note': 'Two small proofs plus bounded runs on the real pipeline; submodule-relative paths and export flow are bounded only.',
 }
 
 TABLE['C08'] = {
-    'modules': ['contracts.regen'],
+    'modules': ['contracts.regen', 'contracts.scripts'],
     'level': 'other',
     'explanation': 'history property (edits interleaved with regenerations): outside one-call contracts. What is decided: (proof) BasePath.to_json encodes the directory flag as a trailing separator (the only way from_json can recover it); (bounded, real code) to_json/from_json of PathGlob, NameGlob, FileFilter, FindCache (kinds preserved), RegenerateFiles and the cache-file version gate are identities / refusals as required; find() on real trees equals the reference semantics (so the lazily re-checked result is the fresh result). The regenerate rule\'s inputs/outputs, directory-mtime depfile and the skip decision of find_check_cache over edit histories are not covered.',
     'assumptions': ['json.dumps/loads round-trips lists, dicts, strings, booleans and None'],
